@@ -59,6 +59,7 @@ FIXED = [
  ("C02", "volume meshes can be built with config.complete_faces_from_cells = False", "building a volume mesh with complete_faces_from_cells=False raised KeyError in _generate_cell_faces"),
  ("C02", "rebuilding a mesh does not flag every edge", "rebuilding from an already built mesh (RawMeshData(mesh), subdivision, merge) flagged every edge as a hard edge"),
  ("C02", "_generate_cell_corners fills the owner list", "cell corners pre-filled with vertices only: cell indices appended to the vertex list instead of the owner list"),
+ ("C18", "face-based frame field clears the 'fixed' flags", "with config.display_duplicate_attribute_warning=True a second face-based frame field on the same mesh with fewer constraints (features on, then off) treated the faces fixed by the earlier field as fixed: their values stayed 0 (unit modulus violated, not the harmonic extension)"),
  ("C02", "edge attributes survive the removal of invalid edges", "dropping an invalid edge lost the values of dense edge attributes (ValueError for vector ones) and the custom default of sparse ones"),
  ("C02", "cell/face connectivity works when cells are numpy rows", "face_to_cells / cell_to_face / in_cell_face_index raised ValueError on volume meshes whose cells are numpy rows (from_arrays)"),
  ("C16", "singularity cutter reaches every face", "SingularityCutter with a feature detector and >= 1 singularity: faces enclosed by forbidden feature edges were never reached by the dual search and the cut mesh fell apart into several components"),
